@@ -68,10 +68,18 @@ end
 def Derives (g : Grammar) (X : Sym) (w : List Nat) : Prop :=
   ∃ t : Tree, t.Valid g ∧ t.root = X ∧ t.yield = w
 
-/-- textbook FIRST: terminals that can begin a string derived from non-terminal `n` -/
-def First (g : Grammar) (n : Nat) (a : Nat) : Prop := ∃ w, Derives g (.n n) (a :: w)
+/-- derivation between sentential forms, `α ⇒* β`: replace one non-terminal occurrence by one of
+    its right-hand sides, any number of times -/
+inductive SDerives (g : Grammar) : List Sym → List Sym → Prop where
+  | refl (α : List Sym) : SDerives g α α
+  | step {pre post rhs β : List Sym} {n k : Nat} :
+      (g.alts n)[k]? = some rhs → SDerives g (pre ++ rhs ++ post) β → SDerives g (pre ++ Sym.n n :: post) β
 
-def Nullable (g : Grammar) (n : Nat) : Prop := Derives g (.n n) []
+/-- textbook FIRST: the terminals `a` with `n ⇒* a β` for some sentential form `β` -/
+def First (g : Grammar) (n : Nat) (a : Nat) : Prop := ∃ β, SDerives g [.n n] (.t a :: β)
+
+/-- textbook nullability: `n ⇒* ε` -/
+def Nullable (g : Grammar) (n : Nat) : Prop := SDerives g [.n n] []
 
 /-- the grammar mentions only its own non-terminals and has no explicit ε symbols
     (`SemanticGrammar::add` strips them; non-terminals come from `createNonTerminal`) -/
